@@ -15,8 +15,9 @@
 (*   SharesRecombine  t_low + X^n t_mid + X^2n t_high + X^3n t_fourth = t  *)
 (*                    (b12..b14 telescope), t_low/mid/high have degree n   *)
 (*                    with top coefficient b12/b13/b14                     *)
-(* Leaves of kind "diff": draw k takes every value x and every non-zero    *)
-(* increment delta.  Judged there:                                         *)
+(* Leaves of kind "diff": draw k takes every value x, for every increment   *)
+(* delta of the parameter list (all non-zero values when thorough).        *)
+(* Judged there:                                                           *)
 (*   OneDrawOnePlace  the prover's committed polynomials under S and under *)
 (*                    S[k -> S[k]+delta] differ exactly by                 *)
 (*                    Masking!ExpectedDelta(k, delta, n) and nowhere else: *)
@@ -53,17 +54,24 @@ DefaultParams ==
    t |-> << 5, 8, 13, 21, 34, 55, 89, 47, 39, 86, 28, 17, 45, 62, 10, 72, 82, 57, 42, 2,
             44, 46, 90, 39, 32, 71, 6, 77, 83, 63, 49, 15, 64, 79, 46, 28, 74, 5 >>,
    tau |-> 29, sg |-> 53,
-   pairs |-> << <<1, 2>>, <<2, 3>>, <<7, 8>>, <<9, 10>>, <<10, 11>>, <<12, 13>>, <<13, 14>> >>]
+   pairs |-> << <<1, 2>>, <<8, 9>>, <<10, 11>>, <<12, 13>>, <<13, 14>> >>,
+   deltas |-> << 1, 2, 48, 96 >>]
 Params == IF "MMC_PARAMS" \in DOMAIN IOEnv THEN JsonDeserialize(IOEnv.MMC_PARAMS)
           ELSE DefaultParams
 
-Wires == [c \in 1..4 |-> [i \in 1..N |-> Params.wires[c][i] % P]]
-ZVals == [i \in 1..N |-> Params.zvals[i] % P]
-TPoly == [i \in 1..(4 * N + 6) |-> Params.t[i] % P]
-Stream0 == [i \in 1..14 |-> Params.stream[i] % P]
+Wires == TLCEval([c \in 1..4 |-> TLCEval([i \in 1..N |-> Params.wires[c][i] % P])])
+ZVals == TLCEval([i \in 1..N |-> Params.zvals[i] % P])
+TPoly == TLCEval([i \in 1..(4 * N + 6) |-> Params.t[i] % P])
+Stream0 == TLCEval([i \in 1..14 |-> Params.stream[i] % P])
+\* interpolated (unblinded) coefficient vectors and the points of H, computed once
+WireCoefs == TLCEval([c \in 1..4 |-> M!IDFT(Wires[c], N, W)])
+ZCoefs == TLCEval(M!IDFT(ZVals, N, W))
+HPoints == TLCEval([i \in 1..N |-> M!Pow(W, i - 1)])
 Tau == Params.tau % P
 Sg == Params.sg % P
 Pairs == Params.pairs
+\* increments explored at the diff leaves (non-zero; all of 1..P-1 when thorough)
+Deltas == {Params.deltas[i] % P : i \in 1..Len(Params.deltas)} \ {0}
 
 VARIABLES lvl, kind, p, x, y
 vars == <<lvl, kind, p, x, y>>
@@ -74,31 +82,38 @@ Next ==
   \/ /\ lvl = 0 /\ kind' = "diff" /\ p' \in 1..14 /\ lvl' = 1 /\ UNCHANGED <<x, y>>
   \/ /\ lvl = 1 /\ x' \in 0..(P - 1) /\ lvl' = 2 /\ UNCHANGED <<kind, p, y>>
   \/ /\ lvl = 2 /\ kind = "pair" /\ y' \in 0..(P - 1) /\ lvl' = 3 /\ UNCHANGED <<kind, p, x>>
-  \/ /\ lvl = 2 /\ kind = "diff" /\ y' \in 1..(P - 1) /\ lvl' = 3 /\ UNCHANGED <<kind, p, x>>
+  \/ /\ lvl = 2 /\ kind = "diff" /\ y' \in Deltas /\ lvl' = 3 /\ UNCHANGED <<kind, p, x>>
 Spec == Init /\ [][Next]_vars
 
 PairLeaf == lvl = 3 /\ kind = "pair"
 DiffLeaf == lvl = 3 /\ kind = "diff"
 
-StreamPair == [i \in 1..14 |-> IF i = Pairs[p][1] THEN x
-                               ELSE IF i = Pairs[p][2] THEN y ELSE Stream0[i]]
+StreamPair == TLCEval([i \in 1..14 |-> IF i = Pairs[p][1] THEN x
+                               ELSE IF i = Pairs[p][2] THEN y ELSE Stream0[i]])
 
 Commit(poly) == SMul(Sg, M!Eval(poly, Tau))
 
 Prover(S) ==
-  LET r1 == M!Round1(Wires, N, W, S)
+  LET r1 == M!Round1C(WireCoefs, S)
       r3 == M!Round3(TPoly, N, S)
   IN [a_comm |-> r1.a_comm, b_comm |-> r1.b_comm, c_comm |-> r1.c_comm, d_comm |-> r1.d_comm,
-      z_comm |-> M!Round2(ZVals, N, W, S),
+      z_comm |-> M!Round2C(ZCoefs, S),
       t_low_comm |-> r3.t_low, t_mid_comm |-> r3.t_mid, t_high_comm |-> r3.t_high,
       t_fourth_comm |-> r3.t_fourth]
+
+\* the interpolation used above is the inverse of evaluation on H
+IDFTIsInterpolation ==
+  lvl = 0 => /\ \A c \in 1..4 : \A i \in 1..N : M!Eval(WireCoefs[c], HPoints[i]) = Wires[c][i]
+             /\ \A i \in 1..N : M!Eval(ZCoefs, HPoints[i]) = ZVals[i]
+             /\ M!Round1(Wires, N, W, Stream0) = M!Round1C(WireCoefs, Stream0)
+             /\ M!Round2(ZVals, N, W, Stream0) = M!Round2C(ZCoefs, Stream0)
 
 AgreesOnH ==
   PairLeaf =>
     LET pr == Prover(StreamPair) IN
     /\ \A c \in 1..4 : \A i \in 1..N :
-         M!Eval(pr[M!CommittedNames[c]], M!Pow(W, i - 1)) = Wires[c][i]
-    /\ \A i \in 1..N : M!Eval(pr.z_comm, M!Pow(W, i - 1)) = ZVals[i]
+         M!Eval(pr[M!CommittedNames[c]], HPoints[i]) = Wires[c][i]
+    /\ \A i \in 1..N : M!Eval(pr.z_comm, HPoints[i]) = ZVals[i]
 
 DegreesAndTop ==
   PairLeaf =>
@@ -106,14 +121,14 @@ DegreesAndTop ==
         pr == Prover(S)
     IN /\ \A c \in 1..4 :
             LET poly == pr[M!CommittedNames[c]]
-                base == M!IDFT(Wires[c], N, W)
+                base == WireCoefs[c]
             IN /\ Len(poly) = N + 2
                /\ poly[N + 1] = S[2 * c - 1] /\ poly[N + 2] = S[2 * c]
                /\ (S[2 * c] # 0 => M!Degree(poly) = N + 1)
                /\ poly[1] = SSub(base[1], S[2 * c - 1]) /\ poly[2] = SSub(base[2], S[2 * c])
                /\ \A i \in 3..N : poly[i] = base[i]
        /\ LET poly == pr.z_comm
-              base == M!IDFT(ZVals, N, W)
+              base == ZCoefs
           IN /\ Len(poly) = N + 3
              /\ poly[N + 1] = S[9] /\ poly[N + 2] = S[10] /\ poly[N + 3] = S[11]
              /\ (S[11] # 0 => M!Degree(poly) = N + 2)
@@ -131,8 +146,8 @@ SharesRecombine ==
        /\ Len(sh.t_fourth) = N + 6
 
 \* diff leaves: draw p takes value x, increment y
-StreamA == [i \in 1..14 |-> IF i = p THEN x ELSE Stream0[i]]
-StreamB == [i \in 1..14 |-> IF i = p THEN SAdd(x, y) ELSE Stream0[i]]
+StreamA == TLCEval([i \in 1..14 |-> IF i = p THEN x ELSE Stream0[i]])
+StreamB == TLCEval([i \in 1..14 |-> IF i = p THEN SAdd(x, y) ELSE Stream0[i]])
 
 OneDrawOnePlace ==
   DiffLeaf =>
